@@ -33,6 +33,7 @@ pub const TREE_B: [u8; 32] = [5u8; 32];
 pub const NOW_SECS: u64 = 1_700_000_000;
 
 pub type MemPersister = KVVPersister<MemoryKVVStore, JsonFormat>;
+pub type CloudPersister = KVVPersister<vls_persist::kvv::cloud::CloudKVVStore<MemoryKVVStore>, JsonFormat>;
 
 pub fn seed() -> [u8; 32] {
     let mut seed = [0u8; 32];
@@ -89,9 +90,75 @@ pub struct NodeFx {
     pub clock: Arc<ManualClock>,
     pub policy: Option<SimplePolicy>,
     pub network: Network,
+    /// set when the node runs over the cloud-staged (transactional) store instead of `store`
+    pub cloud: Option<Arc<CloudPersister>>,
 }
 
 impl NodeFx {
+    /// A node over CloudKVVStore<MemoryKVVStore>: every request must run inside
+    /// enter() .. prepare() .. commit() (see `tx`).
+    pub fn new_cloud(network: Network) -> NodeFx {
+        let cloud: Arc<CloudPersister> = Arc::new(KVVPersister(
+            vls_persist::kvv::cloud::CloudKVVStore::new(MemoryKVVStore::new([1u8; 16])),
+            JsonFormat,
+        ));
+        let clock = Arc::new(ManualClock::new(Duration::from_secs(NOW_SECS)));
+        let services = make_services(cloud.clone(), clock.clone(), None);
+        let config = NodeConfig::new(network);
+        cloud.enter().expect("enter");
+        let node = Arc::new(Node::new(config, &seed(), vec![], services));
+        node.add_allowlist(&[]).expect("allowlist");
+        cloud.new_node(&node.get_id(), &config, &*node.get_state()).expect("new_node");
+        cloud.new_tracker(&node.get_id(), &node.get_tracker()).expect("new_tracker");
+        let _ = cloud.prepare();
+        cloud.commit().expect("commit");
+        NodeFx { node, store: new_mem_persister(), clock, policy: None, network, cloud: Some(cloud) }
+    }
+
+    /// run `f` inside a store transaction (no-op wrapper for the plain in-memory store);
+    /// returns f's result and the number of mutations prepare() reported
+    pub fn tx<T>(&self, f: impl FnOnce() -> T) -> (T, usize) {
+        match &self.cloud {
+            None => (f(), 0),
+            Some(c) => {
+                c.enter().expect("enter");
+                let r = f();
+                let m = c.prepare();
+                let n = m.len();
+                c.commit().expect("commit");
+                (r, n)
+            }
+        }
+    }
+
+    /// restore a signer from the given key-version-values (cloud fixture)
+    pub fn restore_from(&self, d: &[(String, u64, Vec<u8>)]) -> Result<NodeFx, String> {
+        let cloud: Arc<CloudPersister> = Arc::new(KVVPersister(
+            vls_persist::kvv::cloud::CloudKVVStore::new(MemoryKVVStore::new([1u8; 16])),
+            JsonFormat,
+        ));
+        cloud
+            .0
+            .put_batch_unlogged(d.iter().map(|(k, v, x)| KVV(k.clone(), (*v, x.clone()))).collect())
+            .map_err(|e| format!("{:?}", e))?;
+        let clock = Arc::new(ManualClock::new(self.clock_now()));
+        let services = make_services(cloud.clone(), clock.clone(), None);
+        cloud.enter().map_err(|e| format!("{:?}", e))?;
+        let r = crate::catch(|| {
+            Node::restore_nodes(services, Arc::new(MemorySeedPersister::new(seed().to_vec())))
+        });
+        let _ = cloud.prepare();
+        let _ = cloud.commit();
+        match r {
+            Err(p) => Err(format!("panic: {}", p)),
+            Ok(Err(st)) => Err(format!("status: {:?}", st)),
+            Ok(Ok(nodes)) => {
+                let node = nodes.into_iter().next().ok_or("no node restored")?.1;
+                Ok(NodeFx { node, store: new_mem_persister(), clock, policy: None, network: self.network, cloud: Some(cloud) })
+            }
+        }
+    }
+
     pub fn new(network: Network, policy: Option<SimplePolicy>) -> NodeFx {
         let store = new_mem_persister();
         let clock = Arc::new(ManualClock::new(Duration::from_secs(NOW_SECS)));
@@ -101,7 +168,7 @@ impl NodeFx {
         node.add_allowlist(&[]).expect("allowlist");
         store.new_node(&node.get_id(), &config, &*node.get_state()).expect("new_node");
         store.new_tracker(&node.get_id(), &node.get_tracker()).expect("new_tracker");
-        NodeFx { node, store, clock, policy, network }
+        NodeFx { node, store, clock, policy, network, cloud: None }
     }
 
     /// A second signer restored from a *copy* of the store ("crash + restart").
@@ -119,7 +186,7 @@ impl NodeFx {
             Ok(Err(st)) => Err(format!("status: {:?}", st)),
             Ok(Ok(nodes)) => {
                 let node = nodes.into_iter().next().ok_or("no node restored")?.1;
-                Ok(NodeFx { node, store, clock, policy: self.policy.clone(), network: self.network })
+                Ok(NodeFx { node, store, clock, policy: self.policy.clone(), network: self.network, cloud: None })
             }
         }
     }
@@ -152,7 +219,7 @@ impl NodeFx {
         node.add_allowlist(&[]).expect("allowlist");
         store.new_node(&node.get_id(), &config, &*node.get_state()).expect("new_node");
         store.new_tracker(&node.get_id(), &node.get_tracker()).expect("new_tracker");
-        NodeFx { node, store, clock, policy: None, network }
+        NodeFx { node, store, clock, policy: None, network, cloud: None }
     }
 }
 
